@@ -48,10 +48,10 @@ def gen_cases(tier, seed):
         shape = ["cyl", "box"][i % 2]
         out.append({"cls": "shadow:" + shape, "shape": shape, "dims": [float(10 ** rng.uniform(2, 4)) for _ in range(3)], "M": 3000 if tier == "quick" else 8000,
                     "log10E": float(rng.uniform(7, 11)), "model": ["CTW", "GQRS"][(i // 2 + 1) % 2], "salt": int(rng.integers(0, 2**31))})
-    geoms = ["random", "axis-parallel", "one-zero-component", "grazing", "vertex-on-boundary", "integer-vertex"]
-    for i in range(12 if tier == "quick" else 240):
+    geoms = ["random", "axis-parallel", "one-zero-component", "grazing", "vertex-on-boundary", "integer-vertex", "past-an-edge"]
+    for i in range(14 if tier == "quick" else 280):
         shape = ["cyl", "box"][i % 2]
-        out.append({"cls": "exit:%s:%s" % (shape, geoms[(i // 2) % 6]), "shape": shape, "geom": geoms[(i // 2) % 6], "dims": [float(10 ** rng.uniform(1, 4)) for _ in range(3)],
+        out.append({"cls": "exit:%s:%s" % (shape, geoms[(i // 2) % 7]), "shape": shape, "geom": geoms[(i // 2) % 7], "dims": [float(10 ** rng.uniform(1, 4)) for _ in range(3)],
                     "n": 400, "salt": int(rng.integers(0, 2**31))})
     for i in range(6 if tier == "quick" else 60):
         out.append({"cls": "list", "n_events": int(rng.integers(1, 7)), "loop": bool(i % 2), "draws": int(rng.integers(1, 25)), "salt": int(rng.integers(0, 2**31))})
@@ -286,6 +286,22 @@ def run_exit(case, v):
                 vtx[ax] = [float(rng.choice([-1, 1])) * d[0] / 2, float(rng.choice([-1, 1])) * d[1] / 2, float(rng.choice([0.0, -d[2]]))][ax]
         if not np.any(u):
             continue
+        if g == "past-an-edge":
+            # the line of flight leaves the volume a hair (1e-9 ... 1e-5 of its size) away from an edge / the rim: the plane of
+            # the neighbouring face is crossed just *outside* the volume, and that crossing is not an exit point
+            size_ = max(d)
+            delta = size_ * float(10 ** rng.uniform(-9, -5))
+            if case["shape"] == "box":
+                ax1, ax2 = [int(x) for x in rng.permutation(3)[:2]]
+                lo_hi = {0: (-d[0] / 2, d[0] / 2), 1: (-d[1] / 2, d[1] / 2), 2: (-d[2], 0.0)}
+                target = np.array([rng.uniform(*lo_hi[0]), rng.uniform(*lo_hi[1]), rng.uniform(*lo_hi[2])])
+                target[ax1] = lo_hi[ax1][int(rng.integers(0, 2))]                                   # on a face ...
+                edge_side = int(rng.integers(0, 2))
+                target[ax2] = lo_hi[ax2][edge_side] + (delta if edge_side else -delta)             # ... just beyond the neighbouring face
+            else:
+                phi_ = float(rng.uniform(0, 2 * np.pi))
+                target = np.array([(d[0] + delta) * np.cos(phi_), (d[0] + delta) * np.sin(phi_), float(rng.choice([0.0, -d[2]]))])   # on a cap plane, just outside the rim
+            u = target - vtx
         if g == "integer-vertex":
             # whole-number coordinates handed over as Python ints / an int array (inside the volume)
             iv = [int(np.trunc(x)) for x in vtx]
